@@ -181,6 +181,7 @@ type World struct {
 	sigSeen        map[string]int
 	timersAnywhere bool
 	noOneShot      bool
+	oneShotMax     int64
 	clockStep      int
 	fp             *footprint
 	sleep          []sleepEntry
